@@ -37,7 +37,7 @@ pub fn partition(rng: &mut Rng, order: &[usize], k: usize, enc: Enc) -> Vec<File
     let mut names: Vec<&str> = FILE_NAMES.to_vec();
     rng.shuffle(&mut names);
     let mut files: Vec<FileSpec> =
-        (0..k).map(|i| FileSpec { name: names[i].to_string(), decls: vec![], enc, raw: None, via_symlink: false }).collect();
+        (0..k).map(|i| FileSpec { name: names[i].to_string(), decls: vec![], enc, raw: None, via_symlink: false, name_bytes: None }).collect();
     for d in order {
         let f = rng.below(k);
         files[f].decls.push(*d);
@@ -47,7 +47,7 @@ pub fn partition(rng: &mut Rng, order: &[usize], k: usize, enc: Enc) -> Vec<File
         files.retain(|f| !f.decls.is_empty());
     }
     if files.is_empty() {
-        files.push(FileSpec { name: names[0].to_string(), decls: vec![], enc, raw: None, via_symlink: false });
+        files.push(FileSpec { name: names[0].to_string(), decls: vec![], enc, raw: None, via_symlink: false, name_bytes: None });
     }
     rng.shuffle(&mut files);
     files
@@ -131,7 +131,7 @@ pub fn add_padding_files(rng: &mut Rng, v: &mut Variant) {
         }
         let text = format!("FUNCTION_BLOCK Pad{i}\n  VAR\n    k : INT;\n  END_VAR\n  k := {i};\nEND_FUNCTION_BLOCK\n");
         let pos = rng.below(v.files.len() + 1);
-        v.files.insert(pos, FileSpec { name: name.clone(), decls: vec![], enc: Enc::Utf8, raw: Some(text.into_bytes()), via_symlink: false });
+        v.files.insert(pos, FileSpec { name: name.clone(), decls: vec![], enc: Enc::Utf8, raw: Some(text.into_bytes()), via_symlink: false, name_bytes: None });
         if !covered && !v.args.is_empty() {
             let pos = rng.below(v.args.len() + 1);
             v.args.insert(pos, format!("ws/{name}"));
@@ -170,7 +170,7 @@ fn canonical_variant(world: &World, role: &str) -> Variant {
     Variant {
         role: role.to_string(),
         entry: Entry::Check,
-        files: vec![FileSpec { name: "a.st".into(), decls: (0..world.decls.len()).collect(), enc: Enc::Utf8, raw: None, via_symlink: false }],
+        files: vec![FileSpec { name: "a.st".into(), decls: (0..world.decls.len()).collect(), enc: Enc::Utf8, raw: None, via_symlink: false, name_bytes: None }],
         extras: vec![],
         args: vec!["ws/a.st".into()],
         dir_seed: 0,
@@ -547,24 +547,24 @@ fn gen_c13_boundary(rng: &mut Rng, index: u64) -> WorldTrace {
             // check: n files with one syntax error each, plus one valid file
             for i in 0..n {
                 decls.push(pool::Decl { text: format!("FUNCTION_BLOCK Bad{i}\n  VAR\n    cnt : INT;\n  END_VAR\n  cnt := ;\nEND_FUNCTION_BLOCK\n"), kind: "fault".into(), name: format!("Bad{i}") });
-                files.push(FileSpec { name: format!("bad{i:03}.st"), decls: vec![i], enc: Enc::Utf8, raw: None, via_symlink: false });
+                files.push(FileSpec { name: format!("bad{i:03}.st"), decls: vec![i], enc: Enc::Utf8, raw: None, via_symlink: false, name_bytes: None });
             }
             decls.push(pool::Decl { text: "FUNCTION_BLOCK Good\n  VAR\n    cnt : INT;\n  END_VAR\n  cnt := 1;\nEND_FUNCTION_BLOCK\n".into(), kind: "fb".into(), name: "Good".into() });
-            files.push(FileSpec { name: "good.st".into(), decls: vec![n], enc: Enc::Utf8, raw: None, via_symlink: false });
+            files.push(FileSpec { name: "good.st".into(), decls: vec![n], enc: Enc::Utf8, raw: None, via_symlink: false, name_bytes: None });
             (Entry::Check, "dir")
         }
         1 => {
             // echo: n files that do not parse
             for i in 0..n {
                 decls.push(pool::Decl { text: format!("PROGRAM Bad{i}\n  VAR\n    cnt INT;\n  END_VAR\nEND_PROGRAM\n"), kind: "fault".into(), name: format!("Bad{i}") });
-                files.push(FileSpec { name: format!("bad{i:03}.st"), decls: vec![i], enc: Enc::Utf8, raw: None, via_symlink: false });
+                files.push(FileSpec { name: format!("bad{i:03}.st"), decls: vec![i], enc: Enc::Utf8, raw: None, via_symlink: false, name_bytes: None });
             }
             (Entry::Echo, "parts")
         }
         _ => {
             // tokenize: one file with n invalid characters
             decls.push(pool::Decl { text: format!("FUNCTION_BLOCK Lex\n  VAR\n    cnt : INT;\n  END_VAR\n  cnt := 1;\nEND_FUNCTION_BLOCK\n{}\n", "? ".repeat(n)), kind: "fault".into(), name: "Lex".into() });
-            files.push(FileSpec { name: "lex.st".into(), decls: vec![0], enc: Enc::Utf8, raw: None, via_symlink: false });
+            files.push(FileSpec { name: "lex.st".into(), decls: vec![0], enc: Enc::Utf8, raw: None, via_symlink: false, name_bytes: None });
             (Entry::Tokenize, "parts")
         }
     };
@@ -600,7 +600,7 @@ pub fn gen_c13(rng: &mut Rng, thorough: bool, run_index: u64) -> WorldTrace {
             }
             let idx = world.decls.len();
             world.decls.push(pool::Decl { text: format!("FUNCTION_BLOCK Fill{i}\n  VAR\n    k : INT;\n  END_VAR\n  k := {i};\nEND_FUNCTION_BLOCK\n"), kind: "filler".into(), name: format!("Fill{i}") });
-            files.push(FileSpec { name, decls: vec![idx], enc: Enc::Utf8, raw: None, via_symlink: false });
+            files.push(FileSpec { name, decls: vec![idx], enc: Enc::Utf8, raw: None, via_symlink: false, name_bytes: None });
         }
         rng.shuffle(&mut files);
     }
@@ -999,7 +999,7 @@ pub fn gen_c14(rng: &mut Rng, thorough: bool, run_index: u64) -> WorldTrace {
         let position = (run_index / 256) as usize;
         let byte = (run_index % 256) as u8;
         let world = World { decls: vec![], fault: None };
-        let file = FileSpec { name: "sweep.st".into(), decls: vec![], enc: Enc::Utf8, raw: Some(sweep_bytes(position, byte)), via_symlink: false };
+        let file = FileSpec { name: "sweep.st".into(), decls: vec![], enc: Enc::Utf8, raw: Some(sweep_bytes(position, byte)), via_symlink: false, name_bytes: None };
         let mut variants = vec![];
         for entry in [Entry::Check, Entry::Tokenize, Entry::ApiPush, Entry::Echo, Entry::LspTokens] {
             variants.push(Variant { role: "corrupt".into(), entry, files: vec![file.clone()], extras: vec![], args: vec!["ws/sweep.st".into()], dir_seed: 1, hash_seed: rng.next(), faults: vec![], unprivileged: false, cwd: None });
@@ -1287,11 +1287,11 @@ pub fn gen_c03(rng: &mut Rng, thorough: bool) -> WorldTrace {
         name_reuse = true;
     }
     let company: Vec<usize> = (0..world.decls.len()).filter(|d| !involved.contains(d)).collect();
-    let faulty_file = |name: &str| FileSpec { name: name.to_string(), decls: involved.clone(), enc: Enc::Utf8, raw: None, via_symlink: false };
+    let faulty_file = |name: &str| FileSpec { name: name.to_string(), decls: involved.clone(), enc: Enc::Utf8, raw: None, via_symlink: false, name_bytes: None };
     let mk = |role: &str, entry: Entry, files: Vec<FileSpec>, args: Vec<String>, rng: &mut Rng| Variant { role: role.into(), entry, files, extras: vec![], args, dir_seed: rng.next(), hash_seed: rng.next(), faults: vec![], unprivileged: false, cwd: None };
     let mut variants = vec![mk("alone", Entry::Check, vec![faulty_file("faulty.st")], vec!["ws/faulty.st".into()], rng)];
     // reference for "the company is valid": the accompanying declarations alone
-    let mut company_only = mk("company", Entry::Check, vec![FileSpec { name: "company.st".into(), decls: company.clone(), enc: Enc::Utf8, raw: None, via_symlink: false }], vec!["ws/company.st".into()], rng);
+    let mut company_only = mk("company", Entry::Check, vec![FileSpec { name: "company.st".into(), decls: company.clone(), enc: Enc::Utf8, raw: None, via_symlink: false, name_bytes: None }], vec!["ws/company.st".into()], rng);
     company_only.role = "nofault".into();
     variants.push(company_only);
     let nvar = if thorough { 12 } else { 6 };
@@ -1314,7 +1314,7 @@ pub fn gen_c03(rng: &mut Rng, thorough: bool) -> WorldTrace {
             let placed: Vec<usize> = files.iter().flat_map(|f| f.decls.clone()).collect();
             let missing: Vec<usize> = company.iter().copied().filter(|d| !placed.contains(d)).collect();
             if !missing.is_empty() {
-                files.push(FileSpec { name: "rest.st".into(), decls: missing, enc: Enc::Utf8, raw: None, via_symlink: false });
+                files.push(FileSpec { name: "rest.st".into(), decls: missing, enc: Enc::Utf8, raw: None, via_symlink: false, name_bytes: None });
             }
         } else {
             // faulty declarations placed among the others inside shared files
@@ -1360,6 +1360,29 @@ pub fn gen_c03(rng: &mut Rng, thorough: bool) -> WorldTrace {
             }
         }
     }
+    // File names that are not valid UTF-8 (legal on this platform): the faulty file and one valid
+    // accompanying file carry names that differ only in such bytes - two files, whatever a lossy
+    // rendering of their names looks like. Reached through the directory only.
+    if rng.chance(1, 8) {
+        let candidates: Vec<usize> = variants.iter().enumerate().filter(|(_, v)| v.role == "company" && v.entry == Entry::Check && v.files.len() >= 2 && v.files.iter().any(|f| f.name == "faulty.st") && v.files.iter().all(|f| f.raw.is_none() && !f.name.contains('/'))).map(|(i, _)| i).collect();
+        if !candidates.is_empty() {
+            let mut v = variants[*rng.pick(&candidates)].clone();
+            v.role = "company_rawnames".into();
+            v.args = vec!["ws".into()];
+            let mut other_done = false;
+            for f in v.files.iter_mut() {
+                if f.name == "faulty.st" {
+                    f.name = "z\u{fffd}hler.st".into();
+                    f.name_bytes = Some(b"z\xE4hler.st".to_vec());
+                } else if !other_done {
+                    f.name = "z\u{fffd}hler.st".into();
+                    f.name_bytes = Some(b"z\xF6hler.st".to_vec());
+                    other_done = true;
+                }
+            }
+            variants.push(v);
+        }
+    }
     WorldTrace { prop: "C03".into(), world, variants, mode: if name_reuse { "name_reuse".into() } else if clash_world { "clash".into() } else { "plain".into() } }
 }
 
@@ -1383,7 +1406,7 @@ fn oracle_c03(t: &WorldTrace, obs: &[Obs], stats: &mut Stats) -> Vec<Violation> 
     let alone_mapped: Vec<(String, Option<(usize, usize)>)> = mapped(&t.world, &t.variants[0], alone).into_iter().filter(|(c, _)| !CURABLE.contains(&c.as_str())).collect();
     let involved = t.world.fault.as_ref().map(|f| f.involved.clone()).unwrap_or_default();
     for (i, (v, o)) in t.variants.iter().zip(obs).enumerate() {
-        if v.role != "company" && v.role != "company_dup" && !(clash && v.role == "alone") {
+        if v.role != "company" && v.role != "company_dup" && v.role != "company_rawnames" && !(clash && v.role == "alone") {
             continue;
         }
         if matches!(o.outcome, Outcome::Panic(_)) {
